@@ -50,7 +50,8 @@ def D(*a):
 INTS = [0, 1, -1, 2, 3, 7, -3, 43789]
 DECS = [0.5, -2.5, 0.1, 2.675]
 NUMTEXT = ['3', '-3', '3.5']
-BADTEXT = ['abc', '', '\u00b2', '\u2460\u2082']      # incl. digit-like characters that are not decimal digits
+BADTEXT = ['abc', '', '\u00b2', '\u2460\u2082',      # incl. digit-like characters that are not decimal digits
+           'inf', 'nan', '-Infinity', '1_000']          # ... and what only a programming language reads as a number
 DATES = [D(2019, 11, 20), D(2000, 2, 29), D(1900, 3, 1)]
 DATETIMES = [D(2019, 11, 20, 6, 0), D(2019, 11, 20, 18, 30, 15)]
 DATETEXT = ['2019-11-20']
